@@ -241,7 +241,12 @@ func isoExec(st *isoDoc, op Op) (string, string) {
 			cfg.Title = "TOC " + tok
 			return errRet(d.GenerateTOC(cfg))
 		case "SetPageMargins":
-			return errRet(d.SetPageMargins(20, 21, 22, 23))
+			if err := d.SetPageMargins(20, 21, 22, 23); err != nil {
+				return "err"
+			}
+			// the read-back is part of the call pattern (GetPageSettings creates section settings when there are none,
+			// so it is an operation of the document, not an observation the harness may make at will)
+			st.aux = "page|" + isoPageProj(d)
 		case "SetFootnoteConfig":
 			return errRet(d.SetFootnoteConfig(&document.FootnoteConfig{NumberFormat: document.FootnoteFormatLowerRoman,
 				StartNumber: 2, RestartEach: document.FootnoteRestartEachPage, Position: document.FootnotePositionPageBottom}))
@@ -525,6 +530,22 @@ func isoView(st *isoDoc) map[string]interface{} {
 		v["parts"] = isoPartsProj(d.GetParts())
 	}()
 	return v
+}
+
+// isoPageProj is what the page-settings read accessor returns for the document (it may create section settings).
+func isoPageProj(d *document.Document) (out string) {
+	defer func() {
+		if r := recover(); r != nil {
+			out = "!panic"
+		}
+	}()
+	s := d.GetPageSettings()
+	if s == nil {
+		return "nil"
+	}
+	return fmt.Sprintf("%v|%v|%.2fx%.2f|%.2f,%.2f,%.2f,%.2f|%.2f,%.2f,%.2f|%v,%v,%v", s.Size, s.Orientation, s.CustomWidth, s.CustomHeight,
+		s.MarginTop, s.MarginRight, s.MarginBottom, s.MarginLeft, s.HeaderDistance, s.FooterDistance, s.GutterWidth,
+		s.DocGridType, s.DocGridLinePitch, s.DocGridCharSpace)
 }
 
 // isoAuxDigest projects a document produced by a rendering call (template, Markdown).
